@@ -699,12 +699,17 @@ impl SrvCtx {
     pub fn new() -> SrvCtx {
         let hb = hbases_all();
         let faults = vec![HF::Extra(1), HF::Extra(5000), HF::Status(500), HF::Status(204), HF::Empty, HF::LengthLie(7), HF::LengthLie(1 << 40), HF::LengthLie(1 << 62), HF::Redirect, HF::Garbage, HF::FullFile, HF::ErrorPage(404), HF::ShortBody(0), HF::WrongBytes, HF::CutAfter(0), HF::RedirectLoop(300),
-            HF::BadContentRange(0), HF::BadContentRange(1), HF::BadContentRange(2), HF::BadContentRange(3), HF::BadContentRange(4)];
+            HF::BadContentRange(0), HF::BadContentRange(1), HF::BadContentRange(2), HF::BadContentRange(3), HF::BadContentRange(4), HF::Linger(12)];
         let mut jobs = vec![];
         for (bi, b) in hb.iter().enumerate() {
             let nreq = 2 + b.built.dict.chunk_descriptors.len();
             for at in 0..nreq {
                 for fi in 0..faults.len() {
+                    // a response that delivers everything asked for and then never ends: on chunk-data requests only (the
+                    // header reads do need the end of their response), and without a receive timeout on the command line
+                    if matches!(faults[fi], HF::Linger(_)) && at < 2 {
+                        continue;
+                    }
                     for retries in [0u32, 2] {
                         jobs.push((bi, at, fi, retries));
                     }
@@ -735,7 +740,11 @@ impl SrvCtx {
         }
         lab.server.arm(&b.built.bytes, Script { faults: script, splits: vec![], keep_alive: false });
         let _ = std::fs::remove_file(&out);
-        let args = c04::cli_clone_args(&lab.server.url(), &out, &["--http-retry-count".to_string(), retries.to_string(), "--http-timeout".to_string(), "5".to_string()]);
+        let mut extra = vec!["--http-retry-count".to_string(), retries.to_string()];
+        if !matches!(f, HF::Linger(_)) {
+            extra.extend(["--http-timeout".to_string(), "5".to_string()]);
+        }
+        let args = c04::cli_clone_args(&lab.server.url(), &out, &extra);
         let t0 = std::time::Instant::now();
         let r = c04::cli_clone(&lab.rt, args);
         agg.add("server_cases", 1);
@@ -825,7 +834,7 @@ pub fn run(rep: &mut Report) {
     rep.set("evaluations", json!(ev));
     rep.set("distinct_nontrivial", json!(rep.agg.get("mutated_headers_single") + rep.agg.get("mutated_headers_pair") + rep.agg.get("dictionary_byte_mutations") + rep.agg.distinct_count("server_case_kinds")));
     rep.set("exhaustive", json!(true));
-    rep.set("rule", json!("(i) every single-bit flip and truncation of three small valid archives, cloned with and without a seed; (ii) structurally valid headers with re-computed checksum written by the independent encoder: every field of every message (chunker parameters, compression, sizes, checksums' lengths, rebuild indexes, descriptor sizes/offsets, chunk data offset, missing sub-messages, duplicated / missing descriptors, 100 kB version string) set to every value of an adversarial alphabet, singly (quick) and in all pairs (thorough), each opened + info-printed, cloned, cloned with a seed (recorded chunker parameters in use) and cloned in place; (ii-b) every byte of the protobuf dictionary replaced by each of its 8 single-bit flips and by {00, 01, 7f, 80, ff} under a re-computed checksum (the decoder sees well-checksummed but structurally damaged dictionaries); (iii) 21 server misbehaviours (incl. a declared Content-Length of 2^40 / 2^62, five malformed Content-Range values and a redirect chain of 300 hops that only a client-side hop limit ends) at every request position of four archives (one storing its chunks with gaps, so that every chunk is a request of its own and a bad response is followed by further requests) with retry budget 0 and 2 through the real clone_cmd; every case in an isolated worker with a 6 GiB address-space limit, a 20 s per-operation watchdog and chunk-count horizons; oracle: success or reported error, never panic / process death / watchdog / horizon; non-trivial = distinct mutated headers + distinct server cases"));
+    rep.set("rule", json!("(i) every single-bit flip and truncation of three small valid archives, cloned with and without a seed; (ii) structurally valid headers with re-computed checksum written by the independent encoder: every field of every message (chunker parameters, compression, sizes, checksums' lengths, rebuild indexes, descriptor sizes/offsets, chunk data offset, missing sub-messages, duplicated / missing descriptors, 100 kB version string) set to every value of an adversarial alphabet, singly (quick) and in all pairs (thorough), each opened + info-printed, cloned, cloned with a seed (recorded chunker parameters in use) and cloned in place; (ii-b) every byte of the protobuf dictionary replaced by each of its 8 single-bit flips and by {00, 01, 7f, 80, ff} under a re-computed checksum (the decoder sees well-checksummed but structurally damaged dictionaries); (iii) 22 server misbehaviours (incl. a declared Content-Length of 2^40 / 2^62, a chunk-data response that delivers everything and then stays open for 12 s with no receive timeout given, five malformed Content-Range values and a redirect chain of 300 hops that only a client-side hop limit ends) at every request position of four archives (one storing its chunks with gaps, so that every chunk is a request of its own and a bad response is followed by further requests) with retry budget 0 and 2 through the real clone_cmd; every case in an isolated worker with a 6 GiB address-space limit, a 20 s per-operation watchdog and chunk-count horizons; oracle: success or reported error, never panic / process death / watchdog / horizon; non-trivial = distinct mutated headers + distinct server cases"));
     rep.assume("a chunk may legitimately declare up to 2^32-1 bytes (pre-allocated by decompress); only one such buffer exists at a time in these runs");
     rep.assume("byte strings not reachable by <= 2 simultaneous field mutations or a single bit flip / truncation are not covered");
 }
